@@ -54,30 +54,117 @@ def default_has_style(spec, cfg):
     return 1 if _StyleStringHasStyleCache(a4s)["[transparent]"] else 0
 
 
-def covered_wide_half(spec, upto):
-    """some screen up to operation `upto` has a wide character whose right-hand
-    cell is not its ('', style) shadow (a float drew over half of it)"""
+def half_covered_rows(scr):
+    """rows of a screen with a wide character whose right-hand cell is not its
+    ('', style) shadow (a float drew over its right half) -> kind "right", or with an
+    orphan shadow (the left half was covered) -> kind "left".  {row: set of kinds}"""
     from prompt_toolkit.utils import get_cwidth
-    for op in spec["ops"][:upto + 1]:
+    out = {}
+    for y, row in scr["rows"].items():
+        for x, (ch, st) in row.items():
+            if ch and get_cwidth(ch) == 2 and x + 1 in row and row[x + 1][0] != "":
+                out.setdefault(y, set()).add("right")
+            if ch == "" and (x == 0 or not (x - 1 in row and row[x - 1][0] and get_cwidth(row[x - 1][0]) == 2)):
+                # orphan shadow: its wide character was covered, or sits at column -1 (off-screen)
+                out.setdefault(y, set()).add("left")
+    return out
+
+
+def screens_since_full_repaint(spec, i):
+    """the render operations whose screens the terminal content at operation i can still
+    depend on: op i and the renders before it back to the last full repaint (erase,
+    reset, final render, change of size or configuration)"""
+    out = []
+    cur = spec["ops"][i]
+    if cur[0] != "render":
+        return out
+    out.append(cur)
+    for j in range(i - 1, -1, -1):
+        o = spec["ops"][j]
+        if o[0] != "render" or o[2] or (o[1], o[3], o[4]) != (cur[1], cur[3], cur[4]):
+            break
+        out.append(o)
+        cur = o
+    return out
+
+
+def covered_wide_half(spec, i, info):
+    """1 iff the failure is local to a half-covered wide character: a CELL mismatch in a
+    ROW that contains one in the new screen or in a screen rendered since the last full
+    repaint (the damage - a cell the diff believes drawn - persists until that cell
+    changes), or a CURSOR mismatch when the previous or the new screen has an orphan
+    shadow (drawn as nothing while _cursor_pos advances, which shifts the cursor)."""
+    ops = screens_since_full_repaint(spec, i)
+    if not ops:
+        return 0
+    what = info.get("what")
+    if what == "cell":
+        return 1 if any(info.get("row") in half_covered_rows(o[5]) for o in ops) else 0
+    if what in ("cursor", "undef"):
+        return 1 if any("left" in k for o in ops[:2] for k in half_covered_rows(o[5]).values()) else 0
+    return 0
+
+
+_A4S = {}
+
+
+def style_counts(cfg_triple, st):
+    """the has_style rule (colour/bgcolor/underline/strike/blink/reverse) evaluated by the
+    harness on the real Attrs of the style under this configuration"""
+    from prompt_toolkit.renderer import _StyleStringToAttrsCache
+    sv, bits, tv = cfg_triple
+    if (sv, tv) not in _A4S:
+        _A4S[(sv, tv)] = _StyleStringToAttrsCache(c06_impl._style(sv).get_attrs_for_style_str, c06_impl._transformation(tv))
+    a = _A4S[(sv, tv)][st]
+    return bool(a.color or a.bgcolor or a.underline or a.strike or a.blink or a.reverse)
+
+
+def row_all_negative(spec, i):
+    """some screen up to operation i has a row whose counting cells all sit at column
+    indices <= -2 (finding C06-F3: get_max_column_index goes negative, the trim moves
+    the cursor to a negative column and _cursor_pos is off by one from then on; the
+    shift is sticky, so this tag looks at the whole history)"""
+    for op in spec["ops"][:i + 1]:
         if op[0] == "render":
             for row in op[5]["rows"].values():
-                for x, (ch, st) in row.items():
-                    if ch and get_cwidth(ch) == 2 and x + 1 in row and row[x + 1][0] != "":
-                        return 1
-                    if ch == "" and not (x - 1 in row and row[x - 1][0] and get_cwidth(row[x - 1][0]) == 2):
-                        return 1      # orphan shadow: the left half was covered
+                idx = [x for x, (ch, st) in row.items() if ch != " " or style_counts(spec["cfgs"][op[1]], st)]
+                if idx and max(idx) <= -2:
+                    return 1
     return 0
 
 
 def oracle_tags(spec, fail):
-    i, fam, msg = fail
+    i, fam, msg, info = fail
     op = spec["ops"][i]
-    tags = {"clause": fam, "covered_wide_half": covered_wide_half(spec, i)}
+    tags = {"clause": fam, "what": info.get("what"), "covered_wide_half": covered_wide_half(spec, i, info),
+            "row_all_negative": row_all_negative(spec, i) if info.get("what") in ("cursor", "cell") else 0}
     if op[0] == "render":
         tags["default_style_has_style"] = default_has_style(spec, op[1])
-        if fam.startswith("equiv"):
-            tags["what"] = "blank-cell-pen" if ("incremental shows ' ' pen" in msg and "from scratch ' ' pen" in msg) else "other"
     return tags
+
+
+def report_fails(chk, spec, fails, extra_tags, prefix, allow_shrink):
+    """one violation per failure of the sequence (every element of `fails` is tagged and
+    matched against the known findings on its own).  -> True iff some failure is not a
+    known finding."""
+    unknown = False
+    seen = set()
+    for f in fails:
+        tags = dict(oracle_tags(spec, f), **extra_tags)
+        key = json.dumps(tags, sort_keys=True)
+        if key in seen:
+            continue
+        seen.add(key)
+        small = spec
+        if match_known(chk.known, tags) is None:
+            unknown = True
+            if allow_shrink and chk.violation_count < 3:
+                small = shrink_spec(dict(spec, ops=spec["ops"][:f[0] + 1]), f[1])
+                f = ([x for x in c06_oracle.check_spec(small) if x[1] == f[1]] or [f])[0]
+        chk.violation("oracle", "%s%s at operation %d of %s" % (prefix, f[2], f[0], json.dumps(jsonable_spec(small))[:1500]),
+                      tags, {"spec": jsonable_spec(small), "failing_op": f[0], "clause": f[1], "message": f[2], "info": f[3],
+                             "how": "harness/c06_impl.py Driver: real Renderer.render on Vt100_Output(StringIO); output interpreted by harness/c06_term.py"})
+    return unknown
 
 
 # --------------------------------------------------------------------------
@@ -142,6 +229,10 @@ def layout_specs(rng, n):
             # a float with explicit left+width sticking out over the right edge: cells at columns >= width
             floats.append(Float(Window(FormattedTextControl(lambda: (state["f"] or "ov") * 3), style="underline"),
                                 left=max(0, W - rng.randint(1, 3)), top=rng.randint(0, 1), width=rng.randint(3, 6), height=1))
+        if rng.random() < 0.25:
+            # a float with left < 0: cells at negative column indices
+            floats.append(Float(Window(FormattedTextControl(lambda: (state["f"] or "ng") * 2), style="reverse"),
+                                left=-rng.randint(1, 2), top=rng.randint(0, 1), width=rng.randint(3, 5), height=1))
         root = FloatContainer(body, floats=floats)
         app = Application(layout=Layout(root, focused_element=bw), input=DummyInput(),
                           output=Vt100_Output(io.StringIO(), lambda: Size(rows=H, columns=W), term="xterm"))
@@ -167,7 +258,7 @@ def layout_specs(rng, n):
             rows = {}
             for y, row in screen.data_buffer.items():
                 if 0 <= y < H:
-                    rows[y] = {x: (c.char, c.style) for x, c in row.items() if 0 <= x}
+                    rows[y] = {x: (c.char, c.style) for x, c in row.items()}
             from prompt_toolkit.utils import get_cwidth
             if any(c[0] and get_cwidth(c[0]) == 2 and x == W - 1 for r in rows.values() for x, c in r.items()):
                 continue        # wide character straddling the right edge: outside the property's domain
@@ -211,6 +302,8 @@ def gen_specs(chk):
     add("exhaustive_pairs_w3", exhaustive_pairs(rng, 3, 1.0 if thorough else 0.03))
     add("styled_blank_runs", c06_gen.blank_run_specs(rng))
     add("cells_beyond_right_border", c06_gen.overhang_specs(rng))
+    add("negative_columns", c06_gen.neg_cols_specs(rng))
+    add("negative_only_rows(C06-F3 regression)", c06_gen.neg_only_specs(rng))
     n_small, n_big, n_tr = (12000, 6000, 1500) if thorough else (1500, 500, 150)
     add("random_small", (c06_gen.rand_spec(rng, 7, 4, rng.randint(1, 8)) for _ in range(n_small)))
     add("random_narrow_only", (c06_gen.rand_spec(rng, 7, 4, rng.randint(1, 8), wide_ok=False) for _ in range(n_small // 3)))
@@ -316,18 +409,10 @@ def main(tier):
         chk.count_case(case, nontrivial)
         fails = c06_oracle.check_spec(spec, outs, pens)
         if fails:
-            f = fails[0]
-            tags = oracle_tags(spec, f)
-            if match_known(chk.known, tags) is None:
+            for f in fails:
+                fam_count[f[1]] = fam_count.get(f[1], 0) + 1
+            if report_fails(chk, spec, fails, {}, "", True):
                 oracle_bad.add(len(cases) - 1)
-            fam_count[f[1]] = fam_count.get(f[1], 0) + 1
-            small = spec
-            if match_known(chk.known, tags) is None and sum(fam_count.values()) <= 3:
-                small = shrink_spec(dict(spec, ops=spec["ops"][:f[0] + 1]), f[1])
-                f = ([x for x in c06_oracle.check_spec(small) if x[1] == f[1]] or [f])[0]
-            chk.violation("oracle", "%s at operation %d of %s" % (f[2], f[0], json.dumps(jsonable_spec(small))[:1500]),
-                          tags, {"spec": jsonable_spec(small), "failing_op": f[0], "clause": f[1], "message": f[2],
-                                 "how": "harness/c06_impl.py Driver: real Renderer.render on Vt100_Output(StringIO); output interpreted by harness/c06_term.py"})
         if idx % 487 == 0:
             chk.sample({"kind": kind, "spec": jsonable_spec(dict(spec, ops=spec["ops"][:2])), "tokens_of_first_op": res[1][0][:12] if len(res) > 1 else []})
     # oracle-only stream: screens produced by real layouts
@@ -342,9 +427,7 @@ def main(tier):
         nl += len(spec["ops"])
         chk.coverage["evaluations"] += 1
         if fails:
-            f = fails[0]
-            chk.violation("oracle", "real-layout screens: %s at operation %d of %s" % (f[2], f[0], json.dumps(jsonable_spec(spec))[:1500]),
-                          dict(oracle_tags(spec, f), stream="layout"), {"spec": jsonable_spec(spec), "failing_op": f[0], "clause": f[1], "message": f[2]})
+            report_fails(chk, spec, fails, {"stream": "layout"}, "real-layout screens: ", False)
     dist["real_layout_sequences(oracle only)"] = len(lspecs)
     dist["real_layout_renders"] = nl
     chk.coverage["input_distribution"] = dict(dist, corpus=len(corpus),
@@ -392,9 +475,9 @@ def main(tier):
         "Exhaustive: all (previous,new) one-row screens of width 1,2 (and 3: %s) over 6 cell kinds; random sequences up to 12x40; "
         "non-trivial = some operation emitted more than 6 tokens; distinct by hash of the case" % ("100%" if tier == "thorough" else "3% sample"))
     chk.assumptions += [
-        "the terminal is a model: coq/Model/C06_Terminal.v defines the VT100 subset (CUU/CUD/CUF/CUB, CR, LF, BS, EL, ED with background-colour-erase, SGR as opaque pen, ?7h/l, ?25h/l, CSI H); rows unbounded below the origin",
+        "the terminal is a model: coq/Model/C06_Terminal.v defines the VT100 subset (CUU/CUD/CUF/CUB with parameter 0 = 1, CR, LF, BS, EL, ED with background-colour-erase, SGR as opaque pen, ?7h/l, ?25h/l, CSI H); the compared terminal is BOUNDED: H rows below the origin (H = the size given to the render; assumed free again after every final render, i.e. CPR/height negotiation is outside), a line feed on the last row scrolls and is counted; rows above the origin (scrollback) exist and must stay untouched",
         "SGR strings are opaque pens; which attributes are invisible on a blank is read off the SGR parameters (bold/italic/hidden, and the foreground colour when nothing is drawn with it)",
-        "theorems are for cells of display width 1; wide cells are covered by correspondence + oracle only",
+        "theorems are for cells of display width 1 (any column index, also beyond the right border or negative); wide cells are covered by correspondence + oracle only; a bare reset() is judged only where the renderer is fresh (after construction, a final render, an erase or a reset)",
         "cell texts are single code points (width 1 or 2) or the empty shadow cell; mouse support, cursor shapes, titles, alternate-screen buffer switching and terminal resize reflow are outside the model"]
     return chk.finish()
 
@@ -409,7 +492,7 @@ def replay(data):
         for i, op in enumerate(spec["ops"]):
             print("op %d %s -> %r" % (i, op[0] if op[0] != "render" else "render(cfg=%r done=%r %dx%d)" % (op[1], op[2], op[3], op[4]), outs[i + 1]))
         for f in fails:
-            print("ORACLE FAILS at op %d [%s]: %s" % f)
+            print("ORACLE FAILS at op %d [%s]: %s" % f[:3])
         if not fails:
             print("oracle ok")
         return 1 if fails else 0
